@@ -2,10 +2,13 @@
 prints '@@REPLAY@@{"ok": true|false|null, "detail": ..., "functions": [...]}'.
 ok=False means: the real code, run normally on these concrete arguments, violates the obligation."""
 import ast
+import os
 import importlib
 import json
 import sys
 import traceback
+
+SRCP = os.environ.get('VERIF_REPO', '/repo').rstrip('/') + '/src/'
 
 
 def main(argv):
@@ -20,8 +23,8 @@ def main(argv):
         def prof(frame, event, arg):
             if event == 'call':
                 fn = frame.f_code.co_filename
-                if fn.startswith('/repo/src/'):
-                    seen.add('%s:%s' % (fn[len('/repo/src/'):], frame.f_code.co_qualname))
+                if fn.startswith(SRCP):
+                    seen.add('%s:%s' % (fn[len(SRCP):], frame.f_code.co_qualname))
         if ob.kind == 'crosshair':
             ns = dict(ob.fn.__globals__)
             for e in ob.pre:
